@@ -18,7 +18,7 @@ public:
     using LeafGroupClass = TbfParticlesContainer<RealType, DataType, NbDataValuesPerParticle, RhsType, NbRhsValuesPerParticle, SpaceIndexType>;
     using CellGroupClass = TbfCellsContainer<RealType, MultipoleClass, LocalClass, SpaceIndexType>;
     using SpacialConfiguration = TbfSpacialConfiguration<RealType, SpaceIndexType::Dim>;
-    using IndexType = typename TbfDefaultSpaceIndexType<RealType>::IndexType;
+    using IndexType = typename SpaceIndexType::IndexType;
 
 protected:
     const SpacialConfiguration configuration;
